@@ -35,6 +35,55 @@ pub struct RefCfg {
     pub offset0_only: bool,
     /// spell the groups `(?<a>..)`, `(?<b>..)` (names that collide with the literals of the space)
     pub letter_names: bool,
+    /// run the engine on `(?i)P` and the reference on P with every letter of a literal or class
+    /// replaced by the class of both cases
+    pub casei: bool,
+}
+
+/// P with every cased character of a literal / class spelled in both cases (what `(?i)P` means)
+pub fn both_cases(n: &Node) -> Node {
+    fn swap(c: char) -> Option<char> {
+        let l: Vec<char> = c.to_lowercase().collect();
+        let u: Vec<char> = c.to_uppercase().collect();
+        if l.len() == 1 && l[0] != c {
+            Some(l[0])
+        } else if u.len() == 1 && u[0] != c {
+            Some(u[0])
+        } else {
+            None
+        }
+    }
+    match n {
+        Node::Lit(s) => ast::cat(
+            s.chars()
+                .map(|c| match swap(c) {
+                    Some(o) => Node::Set(vec![c, o], false),
+                    None => Node::Lit(c.to_string()),
+                })
+                .collect(),
+        ),
+        Node::Set(cs, neg) => {
+            let mut v = cs.clone();
+            for c in cs {
+                if let Some(o) = swap(*c) {
+                    if !v.contains(&o) {
+                        v.push(o);
+                    }
+                }
+            }
+            Node::Set(v, *neg)
+        }
+        Node::Concat(v) => Node::Concat(v.iter().map(both_cases).collect()),
+        Node::Alt(v) => Node::Alt(v.iter().map(both_cases).collect()),
+        other => {
+            let mut m = other.clone();
+            let kids: Vec<Node> = other.children().iter().map(|c| both_cases(c)).collect();
+            for (slot, kid) in m.children_mut().into_iter().zip(kids) {
+                *slot = kid;
+            }
+            m
+        }
+    }
 }
 
 pub fn weight(pattern: &str, text: &str) -> usize {
@@ -70,7 +119,23 @@ pub fn run(cx: &Ctx, space: &Space, cfg: &RefCfg) -> Tally {
             if facts.n_groups >= refsem::MAXG {
                 return;
             }
-            let pattern = if cfg.letter_names { ast::to_pattern_letter_names(node) } else { ast::to_pattern(node) };
+            if cfg.casei && node.any(&|n| matches!(n, Node::Raw(..) | Node::Flag(_) | Node::FlagGroup(..))) {
+                return;
+            }
+            let pattern = if cfg.casei {
+                format!("(?i){}", ast::to_pattern(node))
+            } else if cfg.letter_names {
+                ast::to_pattern_letter_names(node)
+            } else {
+                ast::to_pattern(node)
+            };
+            let folded;
+            let node = if cfg.casei {
+                folded = both_cases(node);
+                &folded
+            } else {
+                node
+            };
             let prog = match ir::from_ast(node) {
                 Ok(p) => p,
                 Err(ir::BuildError::LookBehindNotConst) => {
